@@ -578,6 +578,7 @@ type FuncContract struct {
 	Notes     []string
 	Dispatch  []string // interface methods whose implementer contracts are imported as axioms
 	IterCanonical bool // the body must be the canonical iterator over the receiver's map
+	Implicit  bool     // created by a `sweep` declaration (no clauses of its own)
 	Frame     []string // frame directives (see frame.go)
 	NoInline  []string // callees that must not be inlined (havoc instead)
 }
@@ -633,6 +634,28 @@ type ContractSet struct {
 	Opaques []OpaqueDecl
 	Aliases map[string]string // interface sort alias: "pkg.A" -> "pkg.B"
 	Order   []string
+	Sweeps  []SweepDecl
+	TypeInvs []TypeInv
+	FrameDecls []FrameDecl
+}
+
+type FrameDecl struct {
+	Prop   string
+	Pkg    string
+	Funcs  []string // Name or Type.Method
+	NoLeak bool
+}
+
+type SweepDecl struct {
+	Prop  string
+	Pkg   string
+	Files []string
+}
+
+type TypeInv struct {
+	Type   string
+	Pkg    string
+	Clause Clause
 }
 
 func newContractSet() *ContractSet {
@@ -657,7 +680,7 @@ func (cs *ContractSet) parseContractLines(file, pkgPath string, lines []string, 
 		line int
 	}
 	var stmts []stmt
-	top := map[string]bool{"func": true, "spec": true, "axiom": true, "sort": true, "opaque": true, "alias": true, "lemma": true}
+	top := map[string]bool{"func": true, "spec": true, "axiom": true, "sort": true, "opaque": true, "alias": true, "lemma": true, "sweep": true, "typeinv": true, "frameclean": true, "noleak": true}
 	for i, ln := range lines {
 		t := strings.TrimSpace(ln)
 		if t == "" || strings.HasPrefix(t, "//") {
@@ -731,6 +754,36 @@ func (cs *ContractSet) parseContractLines(file, pkgPath string, lines []string, 
 			cur = nil
 		case "opaque":
 			cs.Opaques = append(cs.Opaques, OpaqueDecl{Type: strings.TrimSpace(rest), Pkg: pkgPath})
+			cur = nil
+		case "sweep":
+			// sweep <PROP> <file.go> ... : every function declared in these files of
+			// this package is checked for panic freedom (safety obligations)
+			fs := strings.Fields(rest)
+			if len(fs) < 2 {
+				return fmt.Errorf("%s:%d: sweep <PROP> <file>...", file, s.line)
+			}
+			cs.Sweeps = append(cs.Sweeps, SweepDecl{Prop: fs[0], Pkg: pkgPath, Files: fs[1:]})
+			cur = nil
+		case "frameclean", "noleak":
+			fs := strings.Fields(strings.ReplaceAll(rest, ",", " "))
+			if len(fs) < 2 {
+				return fmt.Errorf("%s:%d: %s <PROP> <Func>...", file, s.line, word)
+			}
+			var fns []string
+			for _, f := range fs[1:] {
+				f = strings.TrimPrefix(strings.ReplaceAll(strings.ReplaceAll(f, "(", ""), ")", "."), "*")
+				fns = append(fns, f)
+			}
+			cs.FrameDecls = append(cs.FrameDecls, FrameDecl{Prop: fs[0], Pkg: pkgPath, Funcs: fns, NoLeak: word == "noleak"})
+			cur = nil
+		case "typeinv":
+			// typeinv <Type> <expr over self>: required and ensured by every method of Type
+			tn, ex := splitWord(rest)
+			e, err := parseContractExpr(ex)
+			if err != nil {
+				return fmt.Errorf("%s:%d: %v", file, s.line, err)
+			}
+			cs.TypeInvs = append(cs.TypeInvs, TypeInv{Type: strings.TrimPrefix(tn, "*"), Pkg: pkgPath, Clause: Clause{Kind: "typeinv", Name: "typeinv", Src: ex, Expr: e, File: file, Line: s.line}})
 			cur = nil
 		case "alias":
 			parts := strings.Split(rest, "=")
